@@ -106,6 +106,10 @@ def digest_of(ids):
     return h
 
 
+def shrink_ids(ids):
+    return ids if len(ids) <= 12 else f"{ids[:6]}...{ids[-3:]} ({len(ids)} rows)"
+
+
 def digest_fn(d):
     return digest_of(int(i) for i in d.id)
 
@@ -261,15 +265,16 @@ def run_op(d, op, by, n, groups, cells, rec):
                 return f"column {nm!r} changed by grouped modify"
         of = {}
         for g in groups:
+            summary = (len(g[1]), digest_of(g[1]), min(g[1]))   # once per group, not once per row
             for i in g[1]:
-                of[i] = g
+                of[i] = (g, summary)
         ms, dgs, rs, hs = V.cells(out["m"]), V.cells(out["dg"]), V.cells(out["r"]), V.cells(out["h"])
         for i in range(n):
-            g = of[i]
-            if not V.same_value(hs[i], len(g[1]) / 2 if len(g[1]) > 1 else 0):
-                return f"row {i} (group {g[0]} rows {g[1]}): h={hs[i]!r}, expected {len(g[1]) / 2 if len(g[1]) > 1 else 0} (column dtype {out['h'].dtype})"
-            if ms[i] != len(g[1]) or dgs[i] != digest_of(g[1]) or rs[i] != i - min(g[1]):
-                return f"row {i} (group {g[0]} rows {g[1]}): m={ms[i]} dg={dgs[i]} r={rs[i]}, expected {len(g[1])}, {digest_of(g[1])}, {i - min(g[1])}"
+            g, (size, dig, lo) = of[i]
+            if not V.same_value(hs[i], size / 2 if size > 1 else 0):
+                return f"row {i} (group {g[0]} rows {shrink_ids(g[1])}): h={hs[i]!r}, expected {size / 2 if size > 1 else 0} (column dtype {out['h'].dtype})"
+            if ms[i] != size or dgs[i] != dig or rs[i] != i - lo:
+                return f"row {i} (group {g[0]} rows {shrink_ids(g[1])}): m={ms[i]} dg={dgs[i]} r={rs[i]}, expected {size}, {dig}, {i - lo}"
         rec.outcome(("modify", tuple(ms)))
         if n >= 1:
             # a group-wise result that does not fit its group (here: one element too many) must be rejected, not stored
